@@ -8,7 +8,10 @@
 //     enum / bytes keys. serde_json's reference behaviour: a numeric key is a quote, a JSON number that starts with a
 //     digit or `-` RIGHT AFTER the quote (no whitespace), and a quote.
 // Declared substitutions: `ret.map_err(|err| self.error(err.into()))` -> the equal `match` (closures capturing
-// `&mut self` are outside Verus); `(!neg as usize)` -> `if`-expression; `self.peek_invalid_type(peek, &visitor)` ->
+// `&mut self` are outside Verus); `(!neg as usize)` -> `if`-expression; in scan_integer128 the guarded arm
+// `Some(c) if c.is_ascii_digit()` -> the equal range pattern `Some(c @ b'0'..=b'9')` (R8: this Verus build havocs the
+// state after a guarded arm that mutates and falls through; `u8::is_ascii_digit` is that range by definition) and
+// the local `int` -> `int_` (a Verus type name); `buf.parse()` -> opaque `parse_i128` / `parse_u128`; `buf.push(..)` -> opaque `string_push` (the digit buffer's content is not specified here); `self.peek_invalid_type(peek, &visitor)` ->
 // `self.peek_invalid_type_v(peek)` (the `&dyn Expected` only feeds the message); functions are re-hosted on inherent
 // impls; `c @ b'-' | c @ b'0'..=b'9'` is kept.
 use vstd::prelude::*;
@@ -44,6 +47,8 @@ pub trait Visitor<'de>: Sized {
     fn visit_u64(self, v: u64) -> (r: Result<Self::Value>) ensures r == self.on_u64(v);
     fn visit_i64(self, v: i64) -> (r: Result<Self::Value>) ensures r == self.on_i64(v);
     fn visit_f64(self, v: f64) -> (r: Result<Self::Value>) ensures r == self.on_f64(v);
+    fn visit_i128(self, v: i128) -> (r: Result<Self::Value>);
+    fn visit_u128(self, v: u128) -> (r: Result<Self::Value>);
 }
 
 // ---- exact integers: what a number text that is a plain integer in range denotes
@@ -72,6 +77,14 @@ pub fn parse_number(data: &[u8], index: &mut usize, negative: bool) -> (res: cor
             &&& (negative && 0 < v <= 0x8000_0000_0000_0000 ==> res.is_ok() && res.unwrap() is Signed && res.unwrap()->Signed_0 == -v)
         }),
 { unimplemented!() }
+// String::push of an ASCII digit (std): opaque
+#[verifier::external_body]
+pub fn string_push(buf: &mut String, c: u8) { unimplemented!() }
+// str::parse::<i128> / ::<u128> (std): opaque
+#[verifier::external_body]
+pub fn parse_i128(buf: &String) -> (r: core::result::Result<i128, ()>) { unimplemented!() }
+#[verifier::external_body]
+pub fn parse_u128(buf: &String) -> (r: core::result::Result<u128, ()>) { unimplemented!() }
 // `err.into()`: sonic_number::Error -> ErrorCode (a two-armed match, src/error.rs)
 #[verifier::external_body]
 pub fn num_err_into(e: NumError) -> (c: ErrorCode) { unimplemented!() }
@@ -124,6 +137,69 @@ impl<'de, R: Reader<'de>> Deserializer<R> {
         requires old(self).parser.pinv(),
         ensures final(self).parser.pinv(), final(self).parser.same_doc(&old(self).parser),
     { unimplemented!() }
+
+//@extract file=src/serde/de.rs impl="Deserializer<R>" fn=scan_integer128
+//@subst /Some\(c\) if c\.is_ascii_digit\(\) =>/ => Some(c @ b'0'..=b'9') =>
+//@subst /buf\.push\('0'\)/ => string_push(buf, 0x30u8)
+//@subst /buf\.push\(c as char\)/ => string_push(buf, c) #all
+//@sig
+        requires old(self).parser.pinv(),
+        ensures final(self).parser.pinv(), final(self).parser.same_doc(&old(self).parser),
+            // a 128-bit integer literal: `0` not followed by a digit, or a digit run without leading zero; the reader
+            // ends right after it (sign handled by the caller; fraction / exponent are left for the trailing check)
+            ({
+                let s = old(self).parser.read.data();
+                let i = old(self).parser.read.idx() as int;
+                &&& (res.is_ok() <==> dig_at(s, i) && (s[i] == 0x30 ==> !dig_at(s, i + 1)))
+                &&& (res.is_ok() ==> final(self).parser.read.idx() == (if s[i] == 0x30 { i + 1 } else { digits_end(s, i) }))
+            }),
+//@loop 1
+                    invariant self.parser.pinv(), self.parser.same_doc(&old(self).parser),
+                        old(self).parser.read.idx() < self.parser.read.idx() <= self.parser.read.data().len(),
+                        digits_end(self.parser.read.data(), old(self).parser.read.idx() as int) == digits_end(self.parser.read.data(), self.parser.read.idx() as int),
+                    ensures !dig_at(self.parser.read.data(), self.parser.read.idx() as int),
+                        self.parser.pinv(), self.parser.same_doc(&old(self).parser), old(self).parser.read.idx() < self.parser.read.idx(),
+                        digits_end(self.parser.read.data(), old(self).parser.read.idx() as int) == digits_end(self.parser.read.data(), self.parser.read.idx() as int),
+                    decreases self.parser.read.data().len() - self.parser.read.idx(),
+//@end
+
+//@extract file=src/serde/de.rs impl="de::Deserializer<'de> for &'a mut Deserializer<R>" fn=deserialize_i128
+//@subst /fn deserialize_i128<V>\(self,/ => fn deserialize_i128<V>(&mut self,
+//@subst /buf\.push\('-'\)/ => string_push(&mut buf, 0x2du8)
+//@subst /match buf\.parse\(\) \{/ => match parse_i128(&buf) {
+//@subst /Ok\(int\) => visitor\.visit_i128\(int\),/ => Ok(int_) => visitor.visit_i128(int_),
+//@subst /V: de::Visitor<'de>,/ => V: Visitor<'de>,
+//@sig
+        requires old(self).parser.pinv(),
+        ensures final(self).parser.pinv(), final(self).parser.same_doc(&old(self).parser),
+            // optional whitespace, an optional `-`, then an integer literal without leading zero; nothing more is read
+            res.is_ok() ==> ({
+                let s = old(self).parser.read.data();
+                let p = ws_end(s, old(self).parser.read.idx() as int);
+                let d = if at(s, p, 0x2d) { p + 1 } else { p };
+                dig_at(s, d) && (s[d] == 0x30 ==> !dig_at(s, d + 1)) && final(self).parser.read.idx() == (if s[d] == 0x30 { d + 1 } else { digits_end(s, d) })
+            }),
+//@body
+        proof { lemma_ws_end_bounds(self.parser.read.data(), self.parser.read.idx() as int); }
+//@end
+
+//@extract file=src/serde/de.rs impl="de::Deserializer<'de> for &'a mut Deserializer<R>" fn=deserialize_u128
+//@subst /fn deserialize_u128<V>\(self,/ => fn deserialize_u128<V>(&mut self,
+//@subst /match buf\.parse\(\) \{/ => match parse_u128(&buf) {
+//@subst /Ok\(int\) => visitor\.visit_u128\(int\),/ => Ok(int_) => visitor.visit_u128(int_),
+//@subst /V: de::Visitor<'de>,/ => V: Visitor<'de>,
+//@sig
+        requires old(self).parser.pinv(),
+        ensures final(self).parser.pinv(), final(self).parser.same_doc(&old(self).parser),
+            // optional whitespace, then an integer literal without sign and without leading zero
+            res.is_ok() ==> ({
+                let s = old(self).parser.read.data();
+                let p = ws_end(s, old(self).parser.read.idx() as int);
+                dig_at(s, p) && (s[p] == 0x30 ==> !dig_at(s, p + 1)) && final(self).parser.read.idx() == (if s[p] == 0x30 { p + 1 } else { digits_end(s, p) })
+            }),
+//@body
+        proof { lemma_ws_end_bounds(self.parser.read.data(), self.parser.read.idx() as int); }
+//@end
 
 //@extract file=src/serde/de.rs impl="Deserializer<R>" fn=deserialize_number
 //@subst /self\.peek_invalid_type\(peek, &visitor\)/ => self.peek_invalid_type_v(peek)
